@@ -47,6 +47,94 @@ def check_trial(prog: Program, sc, rec) -> list[dict]:
     return out
 
 
+def _persistent_buffer_idiom(L: Ledger, att: FuncInfo, abody, alp, rel: str, att0: FuncInfo) -> bool:
+    """Second idiom for D1: the translation array is a per-move buffer kept between attempts and calls
+    (`self._buf`, re-allocated as zeros when the atom count changes).  Then "zero outside the moving rows" is a
+    typestate obligation: on every path to every exit of attempt_displacement the last store into the buffer is a
+    zeroing store at the rows that were written (or of the whole array)."""
+    from ..cfg import build_cfg
+
+    pre = abody[: abody.index(alp)]
+    bufattr = bufname = None
+    for s_ in pre:
+        if isinstance(s_, ast.Assign) and len(s_.targets) == 1 and isinstance(s_.targets[0], ast.Name) and isinstance(s_.value, ast.Attribute) and norm(s_.value.value) == "self":
+            bufname, bufattr = s_.targets[0].id, s_.value.attr
+    guards = [s_ for s_ in pre if isinstance(s_, ast.If)]
+    if bufattr is None or len(guards) != 1:
+        return False
+    g = guards[0]
+    alloc = [x for x in g.body if isinstance(x, ast.Assign) and norm(x.targets[0]) == f"self.{bufattr}"]
+    if len(alloc) != 1 or len(g.body) != 1 or g.orelse:
+        return False
+    av = alloc[0].value
+    inl = Inliner(att.node)
+    okalloc = isinstance(av, ast.Call) and norm(av.func) in ("np.zeros", "numpy.zeros") and av.args and norm(inl.inline(av.args[0])).replace(" ", "") in ("(len(context.atoms),3)",)
+    okguard = norm(inl.inline(g.test)).replace(" ", "") in (f"len(self.{bufattr})!=len(context.atoms)", f"self.{bufattr}.shape[0]!=len(context.atoms)", f"len(context.atoms)!=len(self.{bufattr})")
+    where = f"{rel}:{g.lineno}"
+    L.check(okalloc and okguard, "D1", "attempt_displacement:zeros", where,
+            f"the reused translation buffer self.{bufattr} is not (re)allocated as zeros of shape (len(atoms), 3) whenever the atom count changed (`{norm(g.test)[:60]}` → `{norm(av)[:60]}`)",
+            "a buffer of the wrong length, or with non-zero rows, is added to the positions", "buffer-alloc")
+    # set_positions argument = (positions at the start of the attempt) + buffer
+    spcs = [c for c in calls_in(alp) if isinstance(c.func, ast.Attribute) and c.func.attr == "set_positions"]
+    if len(spcs) != 1:
+        raise AnalysisError(f"attempt_displacement: expected one set_positions call in the retry loop, found {len(spcs)}")
+    spc = spcs[0]
+    arg = spc.args[0] if spc.args else None
+    base_ok = False
+    if isinstance(arg, ast.BinOp) and isinstance(arg.op, ast.Add):
+        for a_, b_ in ((arg.left, arg.right), (arg.right, arg.left)):
+            if isinstance(b_, ast.Name) and b_.id == bufname and norm(inl.inline(a_)) in ("context.atoms.positions", "context.atoms.get_positions()"):
+                base_ok = True
+    L.check(base_ok, "D1", "attempt_displacement:sum", f"{rel}:{spc.lineno}", f"set_positions receives `{norm(arg)[:90] if arg is not None else None}`, not (positions) + (translation buffer)",
+            "atoms outside the selected group are placed at positions other than their current ones", "sum")
+    # stores into the buffer along every path to every exit
+    cfg = build_cfg(att.node)
+
+    def store_kind(node):
+        st = node.ast
+        if node.kind != "stmt" or not isinstance(st, (ast.Assign, ast.AugAssign)):
+            return None
+        tg = st.targets[0] if isinstance(st, ast.Assign) else st.target
+        if isinstance(tg, ast.Subscript) and isinstance(tg.value, ast.Name) and tg.value.id == bufname:
+            idx = norm(tg.slice)
+            if isinstance(st, ast.Assign) and norm(st.value) in ("0", "0.0"):
+                return ("zero", idx)
+            if isinstance(st, ast.Assign) and norm(st.value) == "self.operation.calculate(context)" and idx == "context._moving_indices":
+                return ("write", idx)
+            return ("other", idx)
+        if isinstance(st, ast.Expr):
+            return None
+        return None
+
+    bad = None
+    n_paths = 0
+    for path in cfg.paths(max_back=2, include_exc=False):
+        n_paths += 1
+        last = None
+        for node, _lab in path:
+            k = store_kind(node)
+            if k is not None:
+                last = (k, node)
+                if k[0] == "other" and bad is None:
+                    bad = ("other", node, path)
+            elif node.kind == "stmt" and isinstance(node.ast, ast.Expr) and isinstance(node.ast.value, ast.Call) and norm(node.ast.value.func) == f"{bufname}.fill" and norm(node.ast.value.args[0]) in ("0", "0.0"):
+                last = (("zero", ":"), node)
+        if last is not None and last[0][0] == "write" and bad is None:
+            exit_stmt = next((n for n, _l in reversed(path) if n.kind == "stmt" and isinstance(n.ast, ast.Return)), None)
+            bad = ("dirty-exit", last[1], path, exit_stmt)
+    if bad is None:
+        L.ok("D1", "attempt_displacement:store", f"{rel}:{alp.lineno}", f"{n_paths} paths: every exit leaves the reused buffer zero")
+    elif bad[0] == "other":
+        L.violation("D1", "attempt_displacement:store", f"{rel}:{bad[1].lineno}", f"`{norm(bad[1].ast)[:80]}` writes the translation buffer in an unexpected way",
+                    "atoms not sharing the selected label are displaced, or group members get different displacements", "store")
+    else:
+        ex = bad[3]
+        L.violation("D1", "attempt_displacement:zeros", f"{rel}:{ex.lineno if ex is not None else bad[1].lineno}",
+                    f"on the exit `{norm(ex.ast) if ex is not None else 'fall-through'}` the reused translation buffer self.{bufattr} still holds the last displacement at the moving rows (written at line {bad[1].lineno}, never zeroed on this path)",
+                    "the next displacement by this move object (or the next child of a `move * n` composite) also shifts the previously vetoed particle: atoms that do not carry the selected label move", "buffer-dirty-exit")
+    return True
+
+
 def check_label_writers(prog: Program, L: Ledger, rule: str) -> None:
     """labels and the unique-label cache are written together, by set_labels only (or by private helpers that nothing
     but set_labels calls): a second writer lets the two disagree — a label no atom carries is offered, a label an atom
@@ -127,15 +215,17 @@ def run(prog: Program, L: Ledger) -> None:
     if len(aloops) != 1:
         raise AnalysisError(f"attempt_displacement: expected one retry loop, found {len(aloops)}")
     alp = aloops[0]
+    if _persistent_buffer_idiom(L, att, abody, alp, rel, att0):
+        abody = None
     T = RowTracker(None, where="attempt_displacement")
-    for s_ in abody[: abody.index(alp)]:
+    for s_ in (abody[: abody.index(alp)] if abody is not None else []):
         if isinstance(s_, (ast.Assign, ast.AnnAssign)):
             T.stmt(s_)
         elif not (isinstance(s_, ast.Expr) and isinstance(s_.value, ast.Constant)):
             raise AnalysisError(f"attempt_displacement: statement `{norm(s_)[:60]}` before the retry loop is outside the recognised fragment")
     outside = set(T.objs)
     spc = None
-    for s_ in alp.body:
+    for s_ in (alp.body if abody is not None else []):
         cs = [c for c in (calls_in(s_) if not isinstance(s_, (ast.If, ast.For, ast.While)) else calls_in(ast.Expr(value=s_.test)) if isinstance(s_, ast.If) else [])
               if isinstance(c.func, ast.Attribute) and c.func.attr == "set_positions"]
         if cs:
@@ -148,31 +238,32 @@ def run(prog: Program, L: Ledger) -> None:
         else:
             raise AnalysisError(f"attempt_displacement: statement `{norm(s_)[:60]}` before the position write is outside the recognised fragment")
     n_sp = sum(1 for c in calls_in(att.node) if isinstance(c.func, ast.Attribute) and c.func.attr == "set_positions")
-    if spc is None or n_sp != 1:
-        raise AnalysisError(f"attempt_displacement: expected one set_positions call at the top level of the retry loop, found {n_sp}")
-    kws = {k.arg: k.value for k in spc.keywords}
-    arg = T.subst(spc.args[0] if spc.args else kws.get("newpositions"))
-    recv = norm(T.subst(spc.func.value))
-    live = {"context.atoms.positions", "context.atoms.get_positions()"}
-    zobj = zname = None
-    if isinstance(arg, ast.BinOp) and isinstance(arg.op, ast.Add) and recv == "context.atoms":
-        for a_, b_ in ((arg.left, arg.right), (arg.right, arg.left)):
-            if norm(a_) in live and isinstance(b_, ast.Name) and b_.id in T.objs:
-                zname, zobj = b_.id, T.objs[b_.id]
-    L.check(zobj is not None, "D1", "attempt_displacement:sum", f"{rel}:{spc.lineno}", f"set_positions receives `{norm(arg)[:90]}`, not (current positions) + (translation array)",
-            "atoms outside the selected group are placed at positions other than their current ones", norm(arg)[:120])
-    if zobj is not None:
-        shp = norm(zobj.shape).replace(" ", "") if zobj.shape is not None else ""
-        zero = zobj.kind == "array" and zobj.fill in ("0", "0.0") and (shp == "(len(context.atoms),3)" or (zobj.like is not None and norm(zobj.like) in live))
-        fresh = not any(T.objs.get(n) is zobj for n in outside)
-        L.check(zero and fresh, "D1", "attempt_displacement:zeros", f"{rel}:{getattr(zobj.node, 'lineno', att0.node.lineno)}",
-                f"translation array `{norm(zobj.node)[:80]}` is not a zero array of shape (len(atoms), 3) allocated afresh for every attempt" + ("" if fresh else " (allocated once, before the retry loop)"),
-                "unselected atoms receive a non-zero translation (stale values from a previous attempt or a non-zero fill)", "zeros")
-        st_ = zobj.stores
-        ok_store = len(st_) == 1 and st_[0][0] == ("index", "context._moving_indices") and st_[0][1] == "self.operation.calculate(context)"
-        L.check(ok_store, "D1", "attempt_displacement:store", f"{rel}:{st_[0][2] if st_ else att0.node.lineno}",
-                f"the translation array has {len(st_)} store(s): " + "; ".join(f"[{x[0][1] if len(x[0]) > 1 else x[0]}] <- {x[1][:50]}" for x in st_) + " — expected the single `Z[context._moving_indices] = self.operation.calculate(context)`",
-                "atoms not sharing the selected label are displaced, or group members get different displacements", "store")
+    if abody is not None:
+        if spc is None or n_sp != 1:
+            raise AnalysisError(f"attempt_displacement: expected one set_positions call at the top level of the retry loop, found {n_sp}")
+        kws = {k.arg: k.value for k in spc.keywords}
+        arg = T.subst(spc.args[0] if spc.args else kws.get("newpositions"))
+        recv = norm(T.subst(spc.func.value))
+        live = {"context.atoms.positions", "context.atoms.get_positions()"}
+        zobj = zname = None
+        if isinstance(arg, ast.BinOp) and isinstance(arg.op, ast.Add) and recv == "context.atoms":
+            for a_, b_ in ((arg.left, arg.right), (arg.right, arg.left)):
+                if norm(a_) in live and isinstance(b_, ast.Name) and b_.id in T.objs:
+                    zname, zobj = b_.id, T.objs[b_.id]
+        L.check(zobj is not None, "D1", "attempt_displacement:sum", f"{rel}:{spc.lineno}", f"set_positions receives `{norm(arg)[:90]}`, not (current positions) + (translation array)",
+                "atoms outside the selected group are placed at positions other than their current ones", norm(arg)[:120])
+        if zobj is not None:
+            shp = norm(zobj.shape).replace(" ", "") if zobj.shape is not None else ""
+            zero = zobj.kind == "array" and zobj.fill in ("0", "0.0") and (shp == "(len(context.atoms),3)" or (zobj.like is not None and norm(zobj.like) in live))
+            fresh = not any(T.objs.get(n) is zobj for n in outside)
+            L.check(zero and fresh, "D1", "attempt_displacement:zeros", f"{rel}:{getattr(zobj.node, 'lineno', att0.node.lineno)}",
+                    f"translation array `{norm(zobj.node)[:80]}` is not a zero array of shape (len(atoms), 3) allocated afresh for every attempt" + ("" if fresh else " (allocated once, before the retry loop)"),
+                    "unselected atoms receive a non-zero translation (stale values from a previous attempt or a non-zero fill)", "zeros")
+            st_ = zobj.stores
+            ok_store = len(st_) == 1 and st_[0][0] == ("index", "context._moving_indices") and st_[0][1] == "self.operation.calculate(context)"
+            L.check(ok_store, "D1", "attempt_displacement:store", f"{rel}:{st_[0][2] if st_ else att0.node.lineno}",
+                    f"the translation array has {len(st_)} store(s): " + "; ".join(f"[{x[0][1] if len(x[0]) > 1 else x[0]}] <- {x[1][:50]}" for x in st_) + " — expected the single `Z[context._moving_indices] = self.operation.calculate(context)`",
+                    "atoms not sharing the selected label are displaced, or group members get different displacements", "store")
 
     # ------------------------------------------------------------------ D2 / D3: exhaustive evaluation of __call__'s control skeleton
     from ..minieval import Raises, run_stmts
